@@ -37,7 +37,7 @@ COMPONENTS = {
     "stub": ["CAN backend (SimBus)", "can.Notifier", "threading.Condition in canopen.pdo.base (simulator primitive)", "python-can cyclic task (SimCyclicTask)"],
 }
 PROBES = ["tpdo-direction", "rpdo-direction", "config-by-save-read", "colliding-cob-ids", "sub-byte-field", "unaligned-multibyte", "callback", "rtr-sent",
-          "rtr-suppressed", "reconfigured", "frame-on-old-cob-id", "wait-returned", "wait-none", "periodic", "mode-T", "two-waiters", "configuration-reapplied-on-one-side", "node-reattached"]
+          "rtr-suppressed", "reconfigured", "frame-on-old-cob-id", "wait-returned", "wait-none", "periodic", "mode-T", "two-waiters", "configuration-reapplied-on-one-side", "node-reattached", "frame-handled-inside-callback"]
 
 TYPES8 = (odm.UNSIGNED8, odm.INTEGER8, odm.BOOLEAN)
 FULL = [odm.UNSIGNED8, odm.INTEGER8, odm.BOOLEAN, odm.UNSIGNED16, odm.INTEGER16, odm.UNSIGNED24, odm.INTEGER24, odm.UNSIGNED32, odm.INTEGER32,
@@ -244,7 +244,12 @@ def configure(ctx, w, pair, cob_id, layout, enabled=True, rtr=True, via_save=Fal
     elif pair.must_consume != cob_id:
         pair.must_consume = None        # (a subscription outlives 'enabled = False' on the same COB-ID)
     if not pair.cb_installed and ctx.choice(2, "cb"):
-        pair.cons.add_callback(lambda m, p=pair: p.cb_log.append(m))
+        def cb(m, p=pair):
+            p.cb_log.append(m)
+            f, p.reenter = getattr(p, "reenter", None), None
+            if f is not None:
+                f()
+        pair.cons.add_callback(cb)
         pair.cb_installed = True
         ctx.probe("callback")
 
@@ -529,7 +534,7 @@ def scenario(ctx):
             elif cls == "unaligned-multibyte":
                 ctx.probe("unaligned-multibyte")
             what = "%s%d" % (pair.direction, pair.number)
-            op = ctx.weighted(((8, "tx"), (2, "periodic"), (2, "rtr"), (2, "reconf"), (1, "toggle"), (3, "wait"), (1, "oldcob"), (1, "reattach")), "op")
+            op = ctx.weighted(((8, "tx"), (2, "periodic"), (2, "rtr"), (2, "reconf"), (1, "toggle"), (3, "wait"), (1, "oldcob"), (1, "reattach"), (1, "reentrant")), "op")
             if op == "tx":
                 assign(ctx, pair, what)
                 transmit_and_check(ctx, w, pairs, pair, what + " transmit")
@@ -565,6 +570,45 @@ def scenario(ctx):
                         newcob += 1     # one producer per COB-ID (collisions are set up on purpose, same direction, same layout)
                 configure(ctx, w, pair, newcob, gen_layout(ctx), enabled=True, rtr=ctx.choice(3, "rtr") != 0, via_save=ctx.choice(3, "viasave") == 0)
                 ctx.probe("reconfigured")
+            elif op == "reentrant":
+                # the consumer's callback calls back into the library: it makes the producer send the NEXT value at once, and with
+                # delivery inside send() that frame is handled while the callback for the first one is still running
+                if pair.cb_installed and pair in expected_consumers(w, pairs, pair.prod.cob_id, pair.cons_bus) and pair.must_consume == pair.prod.cob_id \
+                        and len(expected_consumers(w, pairs, pair.prod.cob_id, pair.cons_bus)) == 1:
+                    assign(ctx, pair, what)
+
+                    old_inline = w.ch.inline_mode
+
+                    def again(pair=pair, what=what):
+                        # (the first frame reaches the consumer from the receive path, not from inside the producer's send call -
+                        # the producer's network is free to send; the frame sent now is delivered inside this send call)
+                        assign(ctx, pair, what + " (from inside the consumer's callback)")
+                        w.ch.inline_mode = True
+                        try:
+                            pair.prod.transmit()
+                        finally:
+                            w.ch.inline_mode = old_inline
+                    pair.reenter = again
+                    w.ch.inline_mode = False
+                    n0, mark = len(pair.cb_log), w.ch.n
+                    _, exc = call(pair.prod.transmit)
+                    ctx.run_for(2 * MS)
+                    w.ch.inline_mode = old_inline
+                    pair.reenter = None
+                    if exc is not None:
+                        ctx.violation("C15/transmit-raised/%s@%s" % (type(exc).__name__, site(exc)), "%s: transmit() with a callback that transmits again raised %r" % (what, exc))
+                    frames = [f for f in w.ch.frames(since=mark) if f.src == pair.prod_bus and not f.rtr and f.can_id == pair.prod.cob_id]
+                    if len(frames) == 2:
+                        ctx.probe("frame-handled-inside-callback")
+                        if bytes(pair.cons.data) != frames[-1].data or len(pair.cb_log) - n0 != 2:
+                            ctx.violation("C15/consumer-not-updated/frame-inside-callback", "%s: two frames %r, the second sent from inside the callback for the first: consumer holds %s, callback ran %d times" % (
+                                what, frames, bytes(pair.cons.data).hex(), len(pair.cb_log) - n0))
+                        for i, (t, c, ln) in enumerate(pair.layout):
+                            v = pair.values[i]
+                            if v is not None:
+                                got, exc = call(lambda i=i: pair.cons[i].raw)
+                                if exc is None and not same(t, v, got):
+                                    ctx.violation("C15/consumer-reads-other-value/frame-inside-callback", "%s: producer's last value %r, consumer reads %r" % (what, v, got))
             elif op == "reattach":
                 # the node object of one side is taken off its network and added to it again (same object, same id);
                 # whether its maps still listen afterwards is left open, but every configuration step from now on
